@@ -119,8 +119,20 @@ class Routine:
 class Fns(dict):
     """{name: the FunctionDef that is in force at the end of the module}; .rebound = {name: line} for names that the
     module binds again at top level in any other way (assignment, import, class, second def) — the routine that callers
-    get would then not be the one extracted"""
+    get would then not be the one extracted.  Reading an entry gives the definition with its function-local names put
+    back to the canonical ones (`canonicalise_locals`), so that the statement mappings see the same text after a
+    consistent renaming of locals."""
     rebound = {}
+    path = None
+
+    def __getitem__(self, name):
+        node = dict.__getitem__(self, name)
+        if self.path is None:
+            return node
+        cache = self.__dict__.setdefault('_canon', {})
+        if name not in cache:
+            cache[name] = canonicalise_locals(node, self.path)
+        return cache[name]
 
 
 def parse_functions(path):
@@ -131,6 +143,7 @@ def parse_functions(path):
         return Fns(), '%s: %s' % (type(e).__name__, e)
     fns = Fns()
     fns.rebound = {}
+    fns.path = path
     for st in tree.body:
         names = []
         if isinstance(st, (ast.FunctionDef, ast.AsyncFunctionDef, ast.ClassDef)):
@@ -405,7 +418,7 @@ def local_names(fn):
 EXPECT_ORIGIN = {
     'np': 'module numpy',
     'range': 'builtin', 'len': 'builtin', 'int': 'builtin', 'max': 'builtin', 'float': 'builtin', 'bool': 'builtin',
-    'isinstance': 'builtin', 'ValueError': 'builtin', 'list': 'builtin', 'random': 'module random',
+    'isinstance': 'builtin', 'ValueError': 'builtin', 'list': 'builtin', 'set': 'builtin', 'random': 'module random',
     'binarize': 'def bct/utils/other.py:binarize', 'normalize': 'def bct/utils/other.py:normalize',
     'invert': 'def bct/utils/other.py:invert', 'NotImplementedError': 'builtin',
     'cuberoot': 'def bct/utils/miscellaneous_utilities.py:cuberoot',
@@ -538,7 +551,8 @@ def resolved_def(path, name):
     res = resolve(path, name)
     if res[0] != 'def':
         raise ResolveError('%s denotes `%s`, not a function definition' % (name, origin_str(res)))
-    return os.path.join(common.REPO, res[1]), res[3]
+    dpath = os.path.join(common.REPO, res[1])
+    return dpath, canonicalise_locals(res[3], dpath)
 
 
 # ====================================================================== primitives of an IR that are bct functions
@@ -733,45 +747,144 @@ def _pin_renameable(fn):
     return sorted(names, key=lambda nm_: first[nm_])
 
 
+def _drop_noops(body):
+    """the statements without `pass` and without bare-string statements (docstrings included), in every nested block; a block
+    left empty keeps one `pass`"""
+    out = []
+    for st in body:
+        if isinstance(st, ast.Pass):
+            continue
+        if isinstance(st, ast.Expr) and isinstance(st.value, ast.Constant) and isinstance(st.value.value, str):
+            continue
+        for fld in ('body', 'orelse', 'finalbody'):
+            if isinstance(getattr(st, fld, None), list) and (getattr(st, fld) or fld == 'body'):
+                setattr(st, fld, _drop_noops(getattr(st, fld)))
+        for h in getattr(st, 'handlers', []) or []:
+            h.body = _drop_noops(h.body)
+        out.append(st)
+    return out or [ast.Pass()]
+
+
+def _rename_locals(fn, ren):
+    """rename in place: Name nodes, nested function names, exception-handler names (never parameters, attributes, keywords)"""
+    for nd in ast.walk(fn):
+        if isinstance(nd, ast.Name) and nd.id in ren:
+            nd.id = ren[nd.id]
+        elif isinstance(nd, (ast.FunctionDef, ast.AsyncFunctionDef)) and nd is not fn and nd.name in ren:
+            nd.name = ren[nd.name]
+        elif isinstance(nd, ast.ExceptHandler) and nd.name in ren:
+            nd.name = ren[nd.name]
+
+
+def _names_used(fn):
+    """every identifier that occurs in `fn` as a name, parameter, import binding or global / nonlocal declaration"""
+    used = {nd.id for nd in ast.walk(fn) if isinstance(nd, ast.Name)} | {nd.arg for nd in ast.walk(fn) if isinstance(nd, ast.arg)}
+    for nd in ast.walk(fn):
+        if isinstance(nd, (ast.Import, ast.ImportFrom)):
+            used |= {(al.asname or al.name).split('.')[0] for al in nd.names}
+        elif isinstance(nd, (ast.Global, ast.Nonlocal)):
+            used |= set(nd.names)
+        elif isinstance(nd, (ast.FunctionDef, ast.AsyncFunctionDef)) and nd is not fn:
+            used.add(nd.name)
+        elif isinstance(nd, ast.ExceptHandler) and nd.name:
+            used.add(nd.name)
+    return used
+
+
+_CANON_SEEN = {}        # 'file:function' -> current renameable locals, recorded for `canon_locals_text`
+
+
+def canonicalise_locals(fn, path):
+    """The interpreted ties read names (`BC`, `NPd`, `hops` … are fields of the IRs and are compared with the reference
+    IRs).  A consistent renaming of function-local variables does not change what a routine computes, so it is undone
+    before the statements are mapped: the renameable locals of the current source (`_pin_renameable`: bound inside the
+    routine, not a parameter of it or of a nested function, not bound by an import, not global / nonlocal, every occurrence
+    resolving inside the routine) in the order of their first binding are renamed, simultaneously, to the canonical list
+    of `CANON_LOCALS` — if and only if the two lists have the same length, and no canonical name is used in the current
+    source for anything else (a parameter, a global, a builtin …: the renaming would capture it).  Otherwise the routine
+    is extracted as it stands (and its obligation fails, as it should).  The renaming is a bijection between local names,
+    so the renamed function is alpha-equivalent to the current one; line numbers are kept.  `pass` statements and
+    bare-string statements (docstrings, string "comments") are dropped in every block first (`_drop_noops`), as for the
+    source pins.  -> FunctionDef (a copy)"""
+    key = '%s:%s' % (rel(path), fn.name)
+    import copy
+    try:
+        fn2 = copy.deepcopy(fn)
+        fn2.body = _drop_noops(fn2.body)
+        cur = _pin_renameable(fn2)
+    except Exception:  # noqa
+        return fn
+    _CANON_SEEN[key] = cur
+    canon = CANON_LOCALS.get(key)
+    if canon is None or cur is None or len(cur) != len(canon) or cur == canon:
+        return fn2
+    if set(canon) & (_names_used(fn2) - set(cur)):
+        return fn2
+    _rename_locals(fn2, dict(zip(cur, canon)))
+    return fn2
+
+
+def canon_locals_text():
+    """the table `CANON_LOCALS` for the current source (run once on the reference revision of /repo): every routine that
+    `generate()` reads, with its renameable locals in first-binding order"""
+    _CANON_SEEN.clear()
+    import tempfile
+    with tempfile.TemporaryDirectory() as d:
+        os.makedirs(os.path.join(d, 'BctVerif', 'Gen'))
+        saved = dict(CANON_LOCALS)
+        CANON_LOCALS.clear()
+        try:
+            generate(d)
+        finally:
+            CANON_LOCALS.update(saved)
+    out = ['CANON_LOCALS = {']
+    for k_ in sorted(_CANON_SEEN):
+        if _CANON_SEEN[k_]:
+            ln = '    %r: %r,' % (k_, _CANON_SEEN[k_])
+            while len(ln) > 150:
+                cut = ln.rfind(', ', 0, 150) + 1
+                out.append(ln[:cut]); ln = '        ' + ln[cut + 1:]
+            out.append(ln)
+    out.append('}')
+    return '\n'.join(out) + '\n'
+
+
+def _pure_kw(node):
+    """an argument expression whose evaluation has no effect and cannot fail differently in another position: names, literals,
+    attribute chains of names, signed literals, tuples / lists of those"""
+    if isinstance(node, (ast.Name, ast.Constant)):
+        return True
+    if isinstance(node, ast.Attribute):
+        return _pure_kw(node.value)
+    if isinstance(node, ast.UnaryOp) and isinstance(node.op, (ast.USub, ast.UAdd)) and isinstance(node.operand, ast.Constant):
+        return True
+    if isinstance(node, (ast.Tuple, ast.List)):
+        return all(_pure_kw(e) for e in node.elts)
+    return False
+
+
 def normalise_body(fn):
     """the text a source pin compares (used for the generated pin and for the reference alike): a deep copy of the function in
     which (1) docstrings of the function and of nested functions, other bare-string statements and `pass` statements are dropped
     (a block left empty keeps one `pass`), (2) the renameable local names (`_pin_renameable`) are replaced by v0, v1, … in the
-    order of their first binding, (3) every statement is printed by `ast.unparse` (comments, blank lines, redundant parentheses,
+    order of their first binding, (3) the keyword arguments of a call are sorted by name when all of them have pure values
+    (`_pure_kw`), (4) every statement is printed by `ast.unparse` (comments, blank lines, redundant parentheses,
     spacing, quoting style and line breaks do not survive).  Statement order, parameters, global names, attribute names,
     keyword-argument names, imports and literals are kept as they are.  -> list of lines"""
     import copy
     fn = copy.deepcopy(fn)
-
-    def clean(body):
-        out = []
-        for st in body:
-            if isinstance(st, ast.Pass):
-                continue
-            if isinstance(st, ast.Expr) and isinstance(st.value, ast.Constant) and isinstance(st.value.value, str):
-                continue
-            for fld in ('body', 'orelse', 'finalbody'):
-                if isinstance(getattr(st, fld, None), list) and (getattr(st, fld) or fld == 'body'):
-                    setattr(st, fld, clean(getattr(st, fld)))
-            for h in getattr(st, 'handlers', []) or []:
-                h.body = clean(h.body)
-            out.append(st)
-        return out or [ast.Pass()]
-    fn.body = clean(fn.body)
+    fn.body = _drop_noops(fn.body)
     names = _pin_renameable(fn)
     if names:
         used = {nd.id for nd in ast.walk(fn) if isinstance(nd, ast.Name)} | {nd.arg for nd in ast.walk(fn) if isinstance(nd, ast.arg)}
         prefix = 'v'
         while any(re.match(r'^%s\d+$' % re.escape(prefix), u) for u in used - set(names)):
             prefix = '_' + prefix
-        ren = {nm_: '%s%d' % (prefix, k_) for k_, nm_ in enumerate(names)}
-        for nd in ast.walk(fn):
-            if isinstance(nd, ast.Name) and nd.id in ren:
-                nd.id = ren[nd.id]
-            elif isinstance(nd, (ast.FunctionDef, ast.AsyncFunctionDef)) and nd is not fn and nd.name in ren:
-                nd.name = ren[nd.name]
-            elif isinstance(nd, ast.ExceptHandler) and nd.name in ren:
-                nd.name = ren[nd.name]
+        _rename_locals(fn, {nm_: '%s%d' % (prefix, k_) for k_, nm_ in enumerate(names)})
+    for nd in ast.walk(fn):
+        # keyword arguments are put in alphabetical order when every one of them is named (no `**kw`) and has a pure value
+        if isinstance(nd, ast.Call) and len(nd.keywords) > 1 and all(k_.arg is not None and _pure_kw(k_.value) for k_ in nd.keywords):
+            nd.keywords = sorted(nd.keywords, key=lambda k_: k_.arg)
     ast.fix_missing_locations(fn)
     return '\n'.join(ast.unparse(st) for st in fn.body).split('\n')
 
@@ -3971,6 +4084,17 @@ class WeiX(EbcX):
                         if ms:
                             self.sort[t0.id] = 'lst'
                             return '.whereEqMin %s %s %s %s' % (q(t0.id), q(c.left.id), q(ms[0]), q(ms[1]))
+                    la = np_call(c, 'logical_and', 2)
+                    if la and not c.keywords and isinstance(t0, ast.Name):
+                        # x, = np.where(np.logical_and(d == np.min(d'[s]), s'))
+                        c0 = la[0]
+                        if (isinstance(c0, ast.Compare) and len(c0.ops) == 1 and isinstance(c0.ops[0], ast.Eq) and self.is_(c0.left, 'vec')
+                                and self.is_(la[1], 'bvec')):
+                            ms = self.min_sel(c0.comparators[0])
+                            if ms:
+                                self.sort[t0.id] = 'lst'
+                                return '.whereEqMinIn %s %s %s %s %s' % (q(t0.id), q(c0.left.id), q(ms[0]), q(ms[1]), q(la[1].id))
+                        raise Unrec(st, 'unrecognised statement %s' % src_of(st))
                     if (isinstance(t0, ast.Subscript) and self.is_(t0.value, 'ivec') and isinstance(t0.slice, ast.Slice)
                             and t0.slice.lower is None and t0.slice.step is None and t0.slice.upper is not None):
                         b = np_call(c, 'isinf', 1)
@@ -5486,8 +5610,357 @@ def family_nullm():
     return family_pinned('nullm')
 
 
+T2_FIELDS = ['name', 'params', 'defaults', 't', 'm1', 'm2', 'n1', 'n2', 'l1', 'l2', 'vx', 'vxOf', 'vxDdof', 'vxPtp', 'vxElse', 'vy', 'vyOf',
+             'vyDdof', 'vyPtp', 'vyElse', 's', 'a1', 'a1c', 'a1v', 'a2', 'a2c', 'a2v', 'd1', 'd2', 'dc', 'denom', 'dl', 'o1', 'o1n', 'o2', 'o2n',
+             'zl', 'zlit', 'zret', 'tl1', 'tv1', 'b1', 'b2', 'tl2', 'tv2', 'c1', 'c2', 'e1', 'e2']
+T2_NUM = {'vxDdof', 'vyDdof', 'a1c', 'a2c', 'dc', 'o1', 'o2', 'zlit', 'zret'}
+PAIR_FIELDS = ['name', 'params', 'defaults', 'd', 'dA', 'dB', 'n', 'nOf', 'df', 'dfL', 'dfC', 'ss', 'ssD', 'ssM', 'ssPow', 'ssPtp', 'ssElse', 'std',
+               'stdNum', 'stdN', 'stdC', 'z', 'zA', 'zB', 'zDen', 't', 'tZ', 'tN', 'tl1', 'tv1', 'r1', 'tl2', 'tv2', 'r2', 'r3']
+PAIR_NUM = {'dfC', 'ssPow', 'stdC'}
+STAT_FIELDS = ['params', 'defaults', 'tstat', 'zN', 'i', 'iN', 'pTest', 'pT', 'pI', 'pF', 'pA', 'pAi', 'pB', 'pBi', 'pTail', 'uT', 'uI', 'uF', 'uA',
+               'uAi', 'uB', 'uBi', 'uTail', 'ind', 'cL', 'cR']
+
+
+class _TX(object):
+    """small readers shared by the three extractors of the nbs t statistics (every one raises Unrec on any other form)"""
+
+    @staticmethod
+    def nm(node, what):
+        if isinstance(node, ast.Name):
+            return q(node.id)
+        raise Unrec(node, 'expected a name as %s, found %s' % (what, src_of(node)))
+
+    @staticmethod
+    def nat(node, what):
+        if isinstance(node, ast.Constant) and type(node.value) is int and node.value >= 0:
+            return '%d' % node.value
+        raise Unrec(node, 'expected a natural number literal as %s, found %s' % (what, src_of(node)))
+
+    @staticmethod
+    def assign(st, what):
+        if isinstance(st, ast.Assign) and len(st.targets) == 1:
+            return st.targets[0], st.value
+        raise Unrec(st, 'expected `%s`' % what)
+
+    @staticmethod
+    def np1(node, fn_, what, kws=()):
+        """np.<fn_>(<one argument>, <exactly the keywords kws>) -> (argument, {keyword: value})"""
+        c = np_call(node, fn_, 1)
+        if not c or sorted(k.arg or '' for k in node.keywords) != sorted(kws):
+            raise Unrec(node, 'expected `%s`' % what)
+        return c[0], {k.arg: k.value for k in node.keywords}
+
+    @staticmethod
+    def len1(node, what):
+        if (isinstance(node, ast.Call) and isinstance(node.func, ast.Name) and node.func.id == 'len' and len(node.args) == 1
+                and not node.keywords):
+            return node.args[0]
+        raise Unrec(node, 'expected `%s`' % what)
+
+    @staticmethod
+    def binop(node, op, what):
+        if isinstance(node, ast.BinOp) and isinstance(node.op, op):
+            return node.left, node.right
+        raise Unrec(node, 'expected `%s`' % what)
+
+    @staticmethod
+    def if_eq_ret(st, what, orelse):
+        """if <name> == <literal>: return <e>  (else: return <e'> when `orelse`) -> (name node, literal node, e, e')"""
+        if not (isinstance(st, ast.If) and isinstance(st.test, ast.Compare) and len(st.test.ops) == 1 and isinstance(st.test.ops[0], ast.Eq)
+                and len(st.body) == 1 and isinstance(st.body[0], ast.Return) and st.body[0].value is not None
+                and ((not orelse and not st.orelse) or (orelse and len(st.orelse) == 1 and isinstance(st.orelse[0], ast.Return)
+                                                        and st.orelse[0].value is not None))):
+            raise Unrec(st, 'expected `%s`' % what)
+        return st.test.left, st.test.comparators[0], st.body[0].value, (st.orelse[0].value if orelse else None)
+
+    @staticmethod
+    def strlit(node, what):
+        if isinstance(node, ast.Constant) and isinstance(node.value, str):
+            return q(node.value)
+        raise Unrec(node, 'expected a string literal as %s, found %s' % (what, src_of(node)))
+
+    @staticmethod
+    def header(r, fn, fields, num):
+        a = fn.args
+        if a.vararg or a.kwarg or a.kwonlyargs or getattr(a, 'posonlyargs', []):
+            r.bad(fn, 'unexpected parameter kinds')
+        if fn.decorator_list:
+            r.bad(fn, 'unexpected decorator')
+        f = {k: ('99' if k in num else q('?')) for k in fields}
+        f['name'] = q(fn.name)
+        f['params'] = lst(q(x.arg) for x in a.args)
+        f['defaults'] = lean_defaults(defaults_of(fn))
+        return f
+
+
+def extract_t2(fn, path):
+    """the nested function ttest2_stat_only of nbs_bct: nine statements matched positionally (Model/CoreIRNbs.lean: T2IR)"""
+    X = _TX
+    r = Routine(fn.name, path)
+    r.line = fn.lineno
+    f = X.header(r, fn, T2_FIELDS, T2_NUM)
+    r.fields = f
+    body = body_wo_doc(fn)
+    r.parts = {'body': lines_of(body)}
+    r.counts = {'body': len(body)}
+
+    def var_or(st, what):
+        t, v = X.assign(st, what)
+        if not isinstance(v, ast.IfExp):
+            raise Unrec(st, 'expected `%s`' % what)
+        p, _ = X.np1(v.test, 'ptp', what)
+        a, kw_ = X.np1(v.body, 'var', what, ('ddof',))
+        if not (isinstance(v.orelse, ast.Constant) and type(v.orelse.value) in (int, float)):
+            raise Unrec(st, 'expected `%s`' % what)
+        return X.nm(t, 'target'), X.nm(a, 'sample'), X.nat(kw_['ddof'], 'ddof'), X.nm(p, 'sample'), q(ast.unparse(v.orelse))
+    try:
+        if len(body) != 9:
+            raise Unrec(fn, 'expected exactly 9 statements, found %d' % len(body))
+        w = 't = np.mean(x) - np.mean(y)'
+        t, v = X.assign(body[0], w)
+        l, r_ = X.binop(v, ast.Sub, w)
+        f['t'], f['m1'], f['m2'] = X.nm(t, 'target'), X.nm(X.np1(l, 'mean', w)[0], 'sample'), X.nm(X.np1(r_, 'mean', w)[0], 'sample')
+        w = 'n1, n2 = len(x), len(y)'
+        t, v = X.assign(body[1], w)
+        if not (isinstance(t, ast.Tuple) and isinstance(v, ast.Tuple) and len(t.elts) == 2 and len(v.elts) == 2):
+            raise Unrec(body[1], 'expected `%s`' % w)
+        f['n1'], f['n2'] = X.nm(t.elts[0], 'target'), X.nm(t.elts[1], 'target')
+        f['l1'], f['l2'] = X.nm(X.len1(v.elts[0], w), 'sample'), X.nm(X.len1(v.elts[1], w), 'sample')
+        f['vx'], f['vxOf'], f['vxDdof'], f['vxPtp'], f['vxElse'] = var_or(body[2], 'vx = np.var(x, ddof=1) if np.ptp(x) else 0.0')
+        f['vy'], f['vyOf'], f['vyDdof'], f['vyPtp'], f['vyElse'] = var_or(body[3], 'vy = np.var(y, ddof=1) if np.ptp(y) else 0.0')
+        w = 's = np.sqrt(((n1 - 1) * vx + (n2 - 1) * vy) / (n1 + n2 - 2))'
+        t, v = X.assign(body[4], w)
+        num, den = X.binop(X.np1(v, 'sqrt', w)[0], ast.Div, w)
+        p1, p2 = X.binop(num, ast.Add, w)
+        (s1, v1), (s2, v2) = X.binop(p1, ast.Mult, w), X.binop(p2, ast.Mult, w)
+        (a1, c1), (a2, c2) = X.binop(s1, ast.Sub, w), X.binop(s2, ast.Sub, w)
+        dsum, dc = X.binop(den, ast.Sub, w)
+        d1, d2 = X.binop(dsum, ast.Add, w)
+        f['s'] = X.nm(t, 'target')
+        f['a1'], f['a1c'], f['a1v'] = X.nm(a1, 'sample size'), X.nat(c1, 'literal'), X.nm(v1, 'variance')
+        f['a2'], f['a2c'], f['a2v'] = X.nm(a2, 'sample size'), X.nat(c2, 'literal'), X.nm(v2, 'variance')
+        f['d1'], f['d2'], f['dc'] = X.nm(d1, 'sample size'), X.nm(d2, 'sample size'), X.nat(dc, 'literal')
+        w = 'denom = s * np.sqrt(1 / n1 + 1 / n2)'
+        t, v = X.assign(body[5], w)
+        dl, sq = X.binop(v, ast.Mult, w)
+        q1, q2 = X.binop(X.np1(sq, 'sqrt', w)[0], ast.Add, w)
+        (o1, o1n), (o2, o2n) = X.binop(q1, ast.Div, w), X.binop(q2, ast.Div, w)
+        f['denom'], f['dl'] = X.nm(t, 'target'), X.nm(dl, 'factor')
+        f['o1'], f['o1n'], f['o2'], f['o2n'] = X.nat(o1, 'literal'), X.nm(o1n, 'sample size'), X.nat(o2, 'literal'), X.nm(o2n, 'sample size')
+        zl, zlit, zret, _ = X.if_eq_ret(body[6], 'if denom == 0: return 0', False)
+        f['zl'], f['zlit'], f['zret'] = X.nm(zl, 'tested name'), X.nat(zlit, 'literal'), X.nat(zret, 'returned literal')
+        w = "if tail == 'both': return np.abs(t / denom)"
+        tl, tv, e, _ = X.if_eq_ret(body[7], w, False)
+        b1, b2 = X.binop(X.np1(e, 'abs', w)[0], ast.Div, w)
+        f['tl1'], f['tv1'], f['b1'], f['b2'] = X.nm(tl, 'tested name'), X.strlit(tv, 'tail'), X.nm(b1, 'numerator'), X.nm(b2, 'denominator')
+        w = "if tail == 'left': return -t / denom else: return t / denom"
+        tl, tv, e, e2 = X.if_eq_ret(body[8], w, True)
+        c1, c2 = X.binop(e, ast.Div, w)
+        if not (isinstance(c1, ast.UnaryOp) and isinstance(c1.op, ast.USub)):
+            raise Unrec(body[8], 'expected `%s`' % w)
+        e1, e2_ = X.binop(e2, ast.Div, w)
+        f['tl2'], f['tv2'], f['c1'], f['c2'] = X.nm(tl, 'tested name'), X.strlit(tv, 'tail'), X.nm(c1.operand, 'numerator'), X.nm(c2, 'denominator')
+        f['e1'], f['e2'] = X.nm(e1, 'numerator'), X.nm(e2_, 'denominator')
+    except Unrec as e:
+        r.bad(e.node if hasattr(e.node, 'lineno') else fn, e.msg)
+    return r
+
+
+def extract_pair(fn, path):
+    """the nested function ttest_paired_stat_only of nbs_bct: nine statements matched positionally (Model/CoreIRNbs.lean: PairIR)"""
+    X = _TX
+    r = Routine(fn.name, path)
+    r.line = fn.lineno
+    f = X.header(r, fn, PAIR_FIELDS, PAIR_NUM)
+    r.fields = f
+    body = body_wo_doc(fn)
+    r.parts = {'body': lines_of(body)}
+    r.counts = {'body': len(body)}
+    try:
+        if len(body) != 9:
+            raise Unrec(fn, 'expected exactly 9 statements, found %d' % len(body))
+        w = 'd = A - B'
+        t, v = X.assign(body[0], w)
+        a, b = X.binop(v, ast.Sub, w)
+        f['d'], f['dA'], f['dB'] = X.nm(t, 'target'), X.nm(a, 'sample'), X.nm(b, 'sample')
+        w = 'n = len(d)'
+        t, v = X.assign(body[1], w)
+        f['n'], f['nOf'] = X.nm(t, 'target'), X.nm(X.len1(v, w), 'differences')
+        w = 'df = n - 1'
+        t, v = X.assign(body[2], w)
+        a, b = X.binop(v, ast.Sub, w)
+        f['df'], f['dfL'], f['dfC'] = X.nm(t, 'target'), X.nm(a, 'sample size'), X.nat(b, 'literal')
+        w = 'sample_ss = np.sum((d - np.mean(d))**2) if np.ptp(d) else 0.0'
+        t, v = X.assign(body[3], w)
+        if not (isinstance(v, ast.IfExp) and isinstance(v.orelse, ast.Constant) and type(v.orelse.value) in (int, float)):
+            raise Unrec(body[3], 'expected `%s`' % w)
+        base, pw = X.binop(X.np1(v.body, 'sum', w)[0], ast.Pow, w)
+        a, b = X.binop(base, ast.Sub, w)
+        f['ss'], f['ssD'], f['ssM'], f['ssPow'] = X.nm(t, 'target'), X.nm(a, 'differences'), X.nm(X.np1(b, 'mean', w)[0], 'differences'), X.nat(pw, 'exponent')
+        f['ssPtp'], f['ssElse'] = X.nm(X.np1(v.test, 'ptp', w)[0], 'differences'), q(ast.unparse(v.orelse))
+        w = 'unbiased_std = np.sqrt(sample_ss / (n - 1))'
+        t, v = X.assign(body[4], w)
+        a, b = X.binop(X.np1(v, 'sqrt', w)[0], ast.Div, w)
+        b1, b2 = X.binop(b, ast.Sub, w)
+        f['std'], f['stdNum'], f['stdN'], f['stdC'] = X.nm(t, 'target'), X.nm(a, 'sum of squares'), X.nm(b1, 'sample size'), X.nat(b2, 'literal')
+        w = 'z = np.mean(A - B) / unbiased_std'
+        t, v = X.assign(body[5], w)
+        a, b = X.binop(v, ast.Div, w)
+        a1, a2 = X.binop(X.np1(a, 'mean', w)[0], ast.Sub, w)
+        f['z'], f['zA'], f['zB'], f['zDen'] = X.nm(t, 'target'), X.nm(a1, 'sample'), X.nm(a2, 'sample'), X.nm(b, 'denominator')
+        w = 't = z * np.sqrt(n)'
+        t, v = X.assign(body[6], w)
+        a, b = X.binop(v, ast.Mult, w)
+        f['t'], f['tZ'], f['tN'] = X.nm(t, 'target'), X.nm(a, 'factor'), X.nm(X.np1(b, 'sqrt', w)[0], 'sample size')
+        w = "if tail == 'both': return np.abs(t)"
+        tl, tv, e, _ = X.if_eq_ret(body[7], w, False)
+        f['tl1'], f['tv1'], f['r1'] = X.nm(tl, 'tested name'), X.strlit(tv, 'tail'), X.nm(X.np1(e, 'abs', w)[0], 'returned value')
+        w = "if tail == 'left': return -t else: return t"
+        tl, tv, e, e2 = X.if_eq_ret(body[8], w, True)
+        if not (isinstance(e, ast.UnaryOp) and isinstance(e.op, ast.USub)):
+            raise Unrec(body[8], 'expected `%s`' % w)
+        f['tl2'], f['tv2'], f['r2'], f['r3'] = X.nm(tl, 'tested name'), X.strlit(tv, 'tail'), X.nm(e.operand, 'returned value'), X.nm(e2, 'returned value')
+    except Unrec as e:
+        r.bad(e.node if hasattr(e.node, 'lineno') else fn, e.msg)
+    return r
+
+
+def extract_stat(fn, path):
+    """nbs_bct: the statements that compute `t_stat` and `ind_t` (statements 15-17 of the body), Model/CoreIRNbs.lean: StatIR;
+    -> (Routine, nested FunctionDef or None, nested FunctionDef or None)"""
+    X = _TX
+    r = Routine(fn.name, path)
+    r.line = fn.lineno
+    a = fn.args
+    if a.vararg or a.kwarg or a.kwonlyargs or getattr(a, 'posonlyargs', []):
+        r.bad(fn, 'unexpected parameter kinds')
+    f = {k: q('?') for k in STAT_FIELDS}
+    f['params'] = lst(q(x.arg) for x in a.args)
+    f['defaults'] = lean_defaults(defaults_of(fn))
+    r.fields = f
+    body = body_wo_doc(fn)
+    r.parts = {'body': lines_of(body[14:17]) if len(body) >= 17 else lines_of(body)}
+    r.counts = {'statements': len(body)}
+    n2 = body[1] if len(body) > 2 and isinstance(body[1], ast.FunctionDef) else None
+    npair = body[2] if len(body) > 2 and isinstance(body[2], ast.FunctionDef) else None
+
+    def call(st, what):
+        """T[i] = F(A[i, :], B[i, :], tail)"""
+        t, v = X.assign(st, what)
+        if not (isinstance(t, ast.Subscript) and isinstance(v, ast.Call) and isinstance(v.func, ast.Name) and len(v.args) == 3 and not v.keywords):
+            raise Unrec(st, 'expected `%s`' % what)
+
+        def row(e):
+            if (isinstance(e, ast.Subscript) and isinstance(e.slice, ast.Tuple) and len(e.slice.elts) == 2 and full_slice(e.slice.elts[1])):
+                return X.nm(e.value, 'matrix'), X.nm(e.slice.elts[0], 'row index')
+            raise Unrec(e, 'expected a row `M[i, :]`, found %s' % src_of(e))
+        (a_, ai), (b_, bi) = row(v.args[0]), row(v.args[1])
+        return X.nm(t.value, 'target'), X.nm(t.slice, 'index'), q(v.func.id), a_, ai, b_, bi, X.nm(v.args[2], 'tail argument')
+    try:
+        if n2 is None or npair is None:
+            raise Unrec(fn, 'expected the two nested function definitions as second and third statement')
+        if len(body) < 17:
+            raise Unrec(fn, 'expected at least 17 statements, found %d' % len(body))
+        s0, s1, s2 = body[14:17]
+        w = 't_stat = np.zeros((m,))'
+        t, v = X.assign(s0, w)
+        z = X.np1(v, 'zeros', w)[0]
+        if not (isinstance(z, ast.Tuple) and len(z.elts) == 1):
+            raise Unrec(s0, 'expected `%s`' % w)
+        f['tstat'], f['zN'] = X.nm(t, 'target'), X.nm(z.elts[0], 'length')
+        it = s1.iter if isinstance(s1, ast.For) else None
+        if not (it is not None and not s1.orelse and isinstance(it, ast.Call) and isinstance(it.func, ast.Name) and it.func.id == 'range'
+                and len(it.args) == 1 and not it.keywords and len(s1.body) == 1 and isinstance(s1.body[0], ast.If)
+                and len(s1.body[0].body) == 1 and len(s1.body[0].orelse) == 1):
+            raise Unrec(s1, 'expected `for i in range(m):` with one `if paired: … else: …` of one statement each')
+        f['i'], f['iN'], f['pTest'] = X.nm(s1.target, 'loop variable'), X.nm(it.args[0], 'bound'), X.nm(s1.body[0].test, 'test')
+        (f['pT'], f['pI'], f['pF'], f['pA'], f['pAi'], f['pB'], f['pBi'], f['pTail']) = call(
+            s1.body[0].body[0], 't_stat[i] = ttest_paired_stat_only(xmat[i, :], ymat[i, :], tail)')
+        (f['uT'], f['uI'], f['uF'], f['uA'], f['uAi'], f['uB'], f['uBi'], f['uTail']) = call(
+            s1.body[0].orelse[0], 't_stat[i] = ttest2_stat_only(xmat[i, :], ymat[i, :], tail)')
+        w = 'ind_t, = np.where(t_stat > thresh)'
+        t, v = X.assign(s2, w)
+        c = X.np1(v, 'where', w)[0]
+        if not (isinstance(t, ast.Tuple) and len(t.elts) == 1 and isinstance(c, ast.Compare) and len(c.ops) == 1 and isinstance(c.ops[0], ast.Gt)):
+            raise Unrec(s2, 'expected `%s`' % w)
+        f['ind'], f['cL'], f['cR'] = X.nm(t.elts[0], 'target'), X.nm(c.left, 'left side'), X.nm(c.comparators[0], 'right side')
+    except Unrec as e:
+        r.bad(e.node if hasattr(e.node, 'lineno') else fn, e.msg)
+    return r, n2, npair
+
+
+def nbs_extra():
+    path = os.path.join(common.REPO, 'bct', 'nbs.py')
+    fns, err = parse_functions(path)
+    name = 'nbs_bct'
+    out, problems, routines = [], [], {}
+    relb = os.path.basename(path)
+    n2 = npair = None
+    if name not in fns:
+        r = Routine(name, path); r.problems.append('%s: %s' % (name, err or 'function not found in ' + path))
+        r.fields = None
+    else:
+        try:
+            r, n2, npair = extract_stat(fns[name], path)
+            for d in fns[name].decorator_list:
+                ok = (isinstance(d, ast.Call) and isinstance(d.func, ast.Attribute) and d.func.attr == 'dcite'
+                      and isinstance(d.func.value, ast.Name) and d.func.value.id == 'due')
+                if not ok:
+                    r.bad(d, 'unrecognised decorator %s' % src_of(d))
+            if name in getattr(fns, 'rebound', {}):
+                r.bad(fns[name], 'the module binds the name %s again at top level (line %s)' % (name, fns.rebound[name]))
+            name_check(r, fns[name], path, lenient=True)
+        except Exception as e:  # noqa — an extractor crash must not look like success
+            r = Routine(name, path); r.problems.append('%s: extractor raised %s: %s' % (name, type(e).__name__, e))
+            r.fields = None
+    parts = []
+    for nd, ex_, fields, num, typ, okf, lean_name in ((n2, extract_t2, T2_FIELDS, T2_NUM, 'T2IR', 't2Ok', 'ttest2_stat_only'),
+                                                      (npair, extract_pair, PAIR_FIELDS, PAIR_NUM, 'PairIR', 'pairOk', 'ttest_paired_stat_only')):
+        if nd is None:
+            rr = Routine(lean_name, path); rr.problems.append('%s: nested function not found in nbs_bct' % lean_name)
+            rr.fields = None
+        else:
+            try:
+                rr = ex_(nd, path)
+            except Exception as e:  # noqa
+                rr = Routine(lean_name, path); rr.problems.append('%s: extractor raised %s: %s' % (lean_name, type(e).__name__, e))
+                rr.fields = None
+        ff = rr.fields or dict({k: ('99' if k in num else q('?')) for k in fields}, params='[]', defaults='[]')
+        a, b = rr.parts.get('body', (rr.line, rr.line))
+        for p in rr.problems:
+            out.append('-- NOT RECOGNISED: ' + p.replace('\n', ' '))
+        out.append('/-- the nested function `%s` of `nbs_bct` (%s:%d): every statement, one field per name and literal -/' % (lean_name, relb, rr.line))
+        out.append('def ir_%s : Bct.CoreIR.Nbs.%s :=\n  { recognised := %s,\n    %s }\n'
+                   % (lean_name, typ, 'true' if not rr.problems else 'false', ',\n    '.join('%s := %s' % (k, ff[k]) for k in fields)))
+        out.append('theorem %s_ok : Bct.CoreIR.Nbs.%s ir_%s = true := by\n  first | decide | fail "%s_ok: the statements extracted from the nested '
+                   'function %s of nbs_bct (%s:%d-%d) %s"\n'
+                   % (lean_name, okf, lean_name, lean_name, lean_name, relb, a, b,
+                      'were not all recognised by translate/cores.py' if rr.problems else 'are not the expected program'))
+        problems += list(rr.problems)
+        routines['nbs_bct.' + lean_name] = dict(getattr(rr, 'counts', {}), line=rr.line, recognised=not rr.problems)
+    f = r.fields or dict({k: q('?') for k in STAT_FIELDS}, params='[]', defaults='[]')
+    a, b = r.parts.get('body', (r.line, r.line))
+    for p in r.problems:
+        out.append('-- NOT RECOGNISED: ' + p.replace('\n', ' '))
+    out.append('/-- the statements of `nbs_bct` that compute `t_stat` and `ind_t` (%s:%d-%d) -/' % (relb, a, b))
+    out.append('def ir_nbs_bct_tstat : Bct.CoreIR.Nbs.StatIR :=\n  { recognised := %s, origins := %s,\n    %s }\n'
+               % ('true' if not r.problems else 'false', lean_origins(r), ',\n    '.join('%s := %s' % (k, f[k]) for k in STAT_FIELDS)))
+    out.append('theorem nbs_bct_tstat_ok : Bct.CoreIR.Nbs.statOk ir_nbs_bct_tstat = true := by\n  first | decide | fail "nbs_bct_tstat_ok: the '
+               'statements `t_stat = …`, `for i in range(m): …`, `ind_t, = …` extracted from nbs_bct (%s:%d-%d) %s"\n'
+               % (relb, a, b, 'were not all recognised by translate/cores.py' if r.problems else 'are not the expected program'))
+    out.append('theorem nbs_bct_tstat_computes (paired : Bool) (x y : List Rat) (thr : Rat) (tail : Bct.Nbs.Tail)\n'
+               '    (hx : 2 ≤ x.length) (hy : 2 ≤ y.length) (hxy : paired = true → x.length = y.length) :\n'
+               '    Bct.CoreIR.Nbs.runStat Bct.Cores.Nbs.realOps ir_nbs_bct_tstat ir_ttest2_stat_only ir_ttest_paired_stat_only paired\n'
+               '        (Bct.Cores.Nbs.castL x) (Bct.Cores.Nbs.castL y) (Bct.Cores.Nbs.tailStr tail) (thr : ℝ) =\n'
+               '      some (Bct.Nbs.exceeds paired x y thr tail) :=\n'
+               '  Bct.Cores.Nbs.link_tstat _ _ _ nbs_bct_tstat_ok ttest2_stat_only_ok ttest_paired_stat_only_ok paired x y thr tail hx hy hxy\n')
+    problems += list(r.problems)
+    routines['nbs_bct (t statistics)'] = dict(getattr(r, 'counts', {}), line=r.line, recognised=not r.problems)
+    return {'imports': ['import BctVerif.Props.CoresNbs'], 'lean': out, 'problems': problems, 'routines': routines}
+
+
 def family_nbs():
-    return family_pinned('nbs')
+    return family_pinned('nbs', nbs_extra)
 
 
 
@@ -5658,6 +6131,267 @@ def extract_ring(fn, path):
     return r
 
 
+DF_FIELDS = ['params', 'defaults', 'rng', 'rngCallee', 'rngArg', 'dim', 'dimOf', 'tot', 'totOf', 'inArr', 'inLen', 'inDtype', 'outArr', 'outLen',
+             'outDtype', 'iIn', 'iIn0', 'iOut', 'iOut0', 'fVar', 'fN', 'f1', 'f2', 'a1Var', 'a1Vec', 'a1Idx', 'a2Var', 'a2Vec', 'a2Idx', 'cij',
+             'eyeN', 'edges', 'edge0', 'edge1', 'permRng', 'permN', 'mVar', 'mN', 'occupied', 'tried', 'lenOf', 'lenEq', 'exc', 'sw', 'swRng',
+             'swN', 'wIn', 'wSet', 'sw2', 'sw2Rng', 'sw2N', 'free1', 'free2', 'accept', 'ltL', 'ltR', 'ltBody', 'swap', 'addSet', 'addVal',
+             'elseStores', 'subL', 'subEyeN', 'ret']
+DF_NUM = {'iIn0', 'iOut0'}
+DF_LIST = {'accept', 'ltBody', 'swap', 'elseStores'}
+DF_SLICE = {'f1', 'f2'}
+DF_CELL = {'occupied', 'free1', 'free2'}
+
+
+def df_default():
+    er = '{ arr := "?", row := 99, idx := "?" }'
+    cell = '{ mat := "?", r := %s, c := %s }' % (er, er)
+    sl = '{ arr := "?", lo := "?", lo2 := "?", vec := "?", idx := "?", val := "?" }'
+    return {k: ('99' if k in DF_NUM else '[]' if k in DF_LIST else sl if k in DF_SLICE else cell if k in DF_CELL else q('?')) for k in DF_FIELDS}
+
+
+def extract_df(fn, path):
+    """makerandCIJdegreesfixed: statements matched positionally (Model/CoreIRSynth.lean: DfIR)"""
+    r = Routine(fn.name, path)
+    r.line = fn.lineno
+    a = fn.args
+    if a.vararg or a.kwarg or a.kwonlyargs or getattr(a, 'posonlyargs', []):
+        r.bad(fn, 'unexpected parameter kinds')
+    f = df_default()
+    f['params'] = lst(q(x.arg) for x in a.args)
+    f['defaults'] = lean_defaults(defaults_of(fn))
+    r.fields = f
+    body = body_wo_doc(fn)
+    r.parts = {'body': lines_of(body)}
+    r.counts = {'body': len(body)}
+
+    def nm(node, what):
+        if isinstance(node, ast.Name):
+            return q(node.id)
+        raise Unrec(node, 'expected a name as %s, found %s' % (what, src_of(node)))
+
+    def nat(node, what):
+        z = const_int(node)
+        if z is None or z < 0:
+            raise Unrec(node, 'expected a natural number as %s, found %s' % (what, src_of(node)))
+        return '%d' % z
+
+    def assign(st, what):
+        if isinstance(st, ast.Assign) and len(st.targets) == 1:
+            return st.targets[0], st.value
+        raise Unrec(st, 'expected `%s`' % what)
+
+    def call1(v, what, attr=None):
+        """f(x) or g.attr(x), one positional argument, no keywords -> (f or g, x)"""
+        if isinstance(v, ast.Call) and len(v.args) == 1 and not v.keywords:
+            if attr is None and isinstance(v.func, ast.Name):
+                return v.func, v.args[0]
+            if attr is not None and isinstance(v.func, ast.Attribute) and v.func.attr == attr:
+                return v.func.value, v.args[0]
+        raise Unrec(v, 'expected `%s`' % what)
+
+    def npc(v, fn_, what):
+        c = np_call(v, fn_, 1)
+        if not c or v.keywords:
+            raise Unrec(v, 'expected `%s`' % what)
+        return c[0]
+
+    def zeros(st, what):
+        t, v = assign(st, what)
+        c = np_call(v, 'zeros', 1)
+        if not (c and len(v.keywords) == 1 and v.keywords[0].arg == 'dtype' and isinstance(c[0], ast.Tuple) and len(c[0].elts) == 1):
+            raise Unrec(st, 'expected `%s`' % what)
+        return nm(t, 'target'), nm(c[0].elts[0], 'length'), nm(v.keywords[0].value, 'dtype')
+
+    def eref(node):
+        """edges[row, idx]"""
+        if (isinstance(node, ast.Subscript) and isinstance(node.slice, ast.Tuple) and len(node.slice.elts) == 2
+                and const_int(node.slice.elts[0]) is not None and const_int(node.slice.elts[0]) >= 0):
+            return '{ arr := %s, row := %d, idx := %s }' % (nm(node.value, 'edge array'), const_int(node.slice.elts[0]),
+                                                            nm(node.slice.elts[1], 'edge index'))
+        raise Unrec(node, 'expected `edges[0, i]` (row literal, index name), found %s' % src_of(node))
+
+    def cell(node):
+        """CIJ[edges[a, x], edges[b, y]]"""
+        if isinstance(node, ast.Subscript) and isinstance(node.slice, ast.Tuple) and len(node.slice.elts) == 2:
+            return '{ mat := %s, r := %s, c := %s }' % (nm(node.value, 'matrix'), eref(node.slice.elts[0]), eref(node.slice.elts[1]))
+        raise Unrec(node, 'expected `CIJ[edges[0, i], edges[1, i]]`, found %s' % src_of(node))
+
+    def estmt(st):
+        t, v = assign(st, 'a store into CIJ or edges')
+        if isinstance(t, ast.Name):
+            return '.load %s %s' % (q(t.id), eref(v))
+        if isinstance(t, ast.Subscript) and isinstance(t.slice, ast.Tuple) and len(t.slice.elts) == 2:
+            if isinstance(t.slice.elts[0], ast.Subscript):
+                z = const_int(v)
+                if z is None:
+                    raise Unrec(st, 'expected an integer literal stored into the matrix, found %s' % src_of(v))
+                return '.setCell %s %s' % (cell(t), lint(z))
+            if isinstance(v, ast.Name):
+                return '.store %s %s' % (eref(t), q(v.id))
+            return '.copyE %s %s' % (eref(t), eref(v))
+        raise Unrec(st, 'expected a store into CIJ or edges, found %s' % src_of(st))
+
+    def estmts(sts):
+        return lst(estmt(x) for x in sts)
+
+    def slice_set(st, what):
+        t, v = assign(st, what)
+        sl = t.slice if isinstance(t, ast.Subscript) else None
+        if not (isinstance(sl, ast.Slice) and sl.step is None and sl.lower is not None and isinstance(sl.upper, ast.BinOp)
+                and isinstance(sl.upper.op, ast.Add) and isinstance(sl.upper.right, ast.Subscript)):
+            raise Unrec(st, 'expected `%s`' % what)
+        return ('{ arr := %s, lo := %s, lo2 := %s, vec := %s, idx := %s, val := %s }'
+                % (nm(t.value, 'array'), nm(sl.lower, 'slice start'), nm(sl.upper.left, 'slice stop'), nm(sl.upper.right.value, 'degree vector'),
+                   nm(sl.upper.right.slice, 'index'), nm(v, 'stored value')))
+
+    def aug(st, what):
+        if not (isinstance(st, ast.AugAssign) and isinstance(st.op, ast.Add) and isinstance(st.value, ast.Subscript)):
+            raise Unrec(st, 'expected `%s`' % what)
+        return nm(st.target, 'target'), nm(st.value.value, 'degree vector'), nm(st.value.slice, 'index')
+
+    def for_range(st, nbody, what):
+        it = st.iter if isinstance(st, ast.For) else None
+        if not (it is not None and not st.orelse and isinstance(it, ast.Call) and isinstance(it.func, ast.Name) and it.func.id == 'range'
+                and len(it.args) == 1 and not it.keywords and len(st.body) == nbody):
+            raise Unrec(st, 'expected `%s`' % what)
+        return nm(st.target, 'loop variable'), nm(it.args[0], 'bound')
+
+    def randint(v, what):
+        g, x = call1(v, what, 'randint')
+        return nm(g, 'generator'), nm(x, 'bound')
+    try:
+        if len(body) != 13:
+            raise Unrec(fn, 'expected exactly 13 statements, found %d' % len(body))
+        s0, s1, s2, s3, s4, s5, s6, s7, s8, s9, s10, s11, s12 = body
+        t, v = assign(s0, 'rng = get_rng(seed)')
+        g, x = call1(v, 'rng = get_rng(seed)')
+        f['rng'], f['rngCallee'], f['rngArg'] = nm(t, 'target'), q(g.id), nm(x, 'argument')
+        t, v = assign(s1, 'n = len(inv)')
+        g, x = call1(v, 'n = len(inv)')
+        if g.id != 'len':
+            raise Unrec(s1, 'expected `n = len(inv)`')
+        f['dim'], f['dimOf'] = nm(t, 'target'), nm(x, 'argument')
+        t, v = assign(s2, 'k = np.sum(inv)')
+        f['tot'], f['totOf'] = nm(t, 'target'), nm(npc(v, 'sum', 'k = np.sum(inv)'), 'argument')
+        f['inArr'], f['inLen'], f['inDtype'] = zeros(s3, 'in_inv = np.zeros((k,), dtype=int)')
+        f['outArr'], f['outLen'], f['outDtype'] = zeros(s4, 'out_inv = np.zeros((k,), dtype=int)')
+        t, v = assign(s5, 'i_in = 0'); f['iIn'], f['iIn0'] = nm(t, 'target'), nat(v, 'initial value')
+        t, v = assign(s6, 'i_out = 0'); f['iOut'], f['iOut0'] = nm(t, 'target'), nat(v, 'initial value')
+        f['fVar'], f['fN'] = for_range(s7, 4, 'for i in range(n):` with four statements')
+        f['f1'] = slice_set(s7.body[0], 'in_inv[i_in:i_in + inv[i]] = i')
+        f['f2'] = slice_set(s7.body[1], 'out_inv[i_out:i_out + outv[i]] = i')
+        f['a1Var'], f['a1Vec'], f['a1Idx'] = aug(s7.body[2], 'i_in += inv[i]')
+        f['a2Var'], f['a2Vec'], f['a2Idx'] = aug(s7.body[3], 'i_out += outv[i]')
+        t, v = assign(s8, 'CIJ = np.eye(n)')
+        f['cij'], f['eyeN'] = nm(t, 'target'), nm(npc(v, 'eye', 'CIJ = np.eye(n)'), 'dimension')
+        w9 = 'edges = np.array((out_inv, in_inv[rng.permutation(k)]))'
+        t, v = assign(s9, w9)
+        tp = npc(v, 'array', w9)
+        if not (isinstance(tp, ast.Tuple) and len(tp.elts) == 2 and isinstance(tp.elts[1], ast.Subscript)):
+            raise Unrec(s9, 'expected `%s`' % w9)
+        g, x = call1(tp.elts[1].slice, w9, 'permutation')
+        f['edges'], f['edge0'], f['edge1'] = nm(t, 'target'), nm(tp.elts[0], 'first row'), nm(tp.elts[1].value, 'second row')
+        f['permRng'], f['permN'] = nm(g, 'generator'), nm(x, 'permutation size')
+        f['mVar'], f['mN'] = for_range(s10, 1, 'for i in range(k):` with one `if … else`')
+        iff = s10.body[0]
+        if not (isinstance(iff, ast.If) and len(iff.body) == 2 and len(iff.orelse) >= 1):
+            raise Unrec(iff, 'expected `if CIJ[edges[0, i], edges[1, i]]:` with two statements and an `else`')
+        f['occupied'] = cell(iff.test)
+        t, v = assign(iff.body[0], 'tried = set()')
+        if not (isinstance(v, ast.Call) and isinstance(v.func, ast.Name) and v.func.id == 'set' and not v.args and not v.keywords):
+            raise Unrec(iff.body[0], 'expected `tried = set()`')
+        f['tried'] = nm(t, 'target')
+        wh = iff.body[1]
+        if not (isinstance(wh, ast.While) and not wh.orelse and isinstance(wh.test, ast.Constant) and wh.test.value is True and len(wh.body) == 5):
+            raise Unrec(wh, 'expected `while True:` with five statements')
+        w0, w1, w2, w3, w4 = wh.body
+        ww = 'if len(tried) == k: raise BCTParamError(…)'
+        if not (isinstance(w0, ast.If) and not w0.orelse and len(w0.body) == 1 and isinstance(w0.test, ast.Compare) and len(w0.test.ops) == 1
+                and isinstance(w0.test.ops[0], ast.Eq) and isinstance(w0.body[0], ast.Raise) and w0.body[0].cause is None
+                and isinstance(w0.body[0].exc, ast.Call) and isinstance(w0.body[0].exc.func, ast.Name)):
+            raise Unrec(w0, 'expected `%s`' % ww)
+        g, x = call1(w0.test.left, ww)
+        if g.id != 'len':
+            raise Unrec(w0, 'expected `%s`' % ww)
+        f['lenOf'], f['lenEq'], f['exc'] = nm(x, 'argument'), nm(w0.test.comparators[0], 'right side'), q(w0.body[0].exc.func.id)
+        for x in w0.body[0].exc.args:
+            if not (isinstance(x, ast.Constant) and isinstance(x.value, str)):
+                raise Unrec(x, 'expected a string literal as the message of the exception')
+        if w0.body[0].exc.keywords:
+            raise Unrec(w0, 'expected `%s`' % ww)
+        t, v = assign(w1, 'switch = rng.randint(k)')
+        f['sw'] = nm(t, 'target'); f['swRng'], f['swN'] = randint(v, 'switch = rng.randint(k)')
+        if not (isinstance(w2, ast.While) and not w2.orelse and len(w2.body) == 1 and isinstance(w2.test, ast.Compare) and len(w2.test.ops) == 1
+                and isinstance(w2.test.ops[0], ast.In)):
+            raise Unrec(w2, 'expected `while switch in tried:` with one statement')
+        f['wIn'], f['wSet'] = nm(w2.test.left, 'left side'), nm(w2.test.comparators[0], 'right side')
+        t, v = assign(w2.body[0], 'switch = rng.randint(k)')
+        f['sw2'] = nm(t, 'target'); f['sw2Rng'], f['sw2N'] = randint(v, 'switch = rng.randint(k)')
+        w3w = 'if not (CIJ[edges[0, i], edges[1, switch]] or CIJ[edges[0, switch], edges[1, i]]):'
+        if not (isinstance(w3, ast.If) and not w3.orelse and isinstance(w3.test, ast.UnaryOp) and isinstance(w3.test.op, ast.Not)
+                and isinstance(w3.test.operand, ast.BoolOp) and isinstance(w3.test.operand.op, ast.Or) and len(w3.test.operand.values) == 2
+                and len(w3.body) >= 2 and isinstance(w3.body[-1], ast.Break)):
+            raise Unrec(w3, 'expected `%s` … `break`' % w3w)
+        f['free1'], f['free2'] = cell(w3.test.operand.values[0]), cell(w3.test.operand.values[1])
+        lt = [j for j, x in enumerate(w3.body) if isinstance(x, ast.If)]
+        if len(lt) != 1:
+            raise Unrec(w3, 'expected exactly one `if switch < i:` among the statements of the accepted switch')
+        ifl = w3.body[lt[0]]
+        if not (not ifl.orelse and isinstance(ifl.test, ast.Compare) and len(ifl.test.ops) == 1 and isinstance(ifl.test.ops[0], ast.Lt)):
+            raise Unrec(ifl, 'expected `if switch < i:` without `else`')
+        f['accept'] = estmts(w3.body[:lt[0]])
+        f['ltL'], f['ltR'] = nm(ifl.test.left, 'left side'), nm(ifl.test.comparators[0], 'right side')
+        f['ltBody'] = estmts(ifl.body)
+        f['swap'] = estmts(w3.body[lt[0] + 1:-1])
+        ad = w4.value if isinstance(w4, ast.Expr) else None
+        g, x = call1(ad, 'tried.add(switch)', 'add') if ad is not None else (None, None)
+        if g is None:
+            raise Unrec(w4, 'expected `tried.add(switch)`')
+        f['addSet'], f['addVal'] = nm(g, 'set'), nm(x, 'element')
+        f['elseStores'] = estmts(iff.orelse)
+        if not (isinstance(s11, ast.AugAssign) and isinstance(s11.op, ast.Sub)):
+            raise Unrec(s11, 'expected `CIJ -= np.eye(n)`')
+        f['subL'], f['subEyeN'] = nm(s11.target, 'target'), nm(npc(s11.value, 'eye', 'CIJ -= np.eye(n)'), 'dimension')
+        if not (isinstance(s12, ast.Return) and s12.value is not None):
+            raise Unrec(s12, 'expected `return CIJ`')
+        f['ret'] = nm(s12.value, 'returned value')
+    except Unrec as e:
+        r.bad(e.node if hasattr(e.node, 'lineno') else fn, e.msg)
+    return r
+
+
+def synth_df():
+    path = os.path.join(common.REPO, 'bct', 'algorithms', 'reference.py')
+    fns, err = parse_functions(path)
+    name = 'makerandCIJdegreesfixed'
+    if name not in fns:
+        r = Routine(name, path); r.problems.append('%s: %s' % (name, err or 'function not found in ' + path))
+        r.fields = None
+    else:
+        try:
+            r = extract_df(fns[name], path)
+            check_header(r, fns[name], fns)
+        except Exception as e:  # noqa — an extractor crash must not look like success
+            r = Routine(name, path); r.problems.append('%s: extractor raised %s: %s' % (name, type(e).__name__, e))
+            r.fields = None
+    f = r.fields or dict(df_default(), params='[]', defaults='[]')
+    relb = os.path.basename(path)
+    a, b = r.parts.get('body', (r.line, r.line))
+    out = []
+    for p in r.problems:
+        out.append('-- NOT RECOGNISED: ' + p.replace('\n', ' '))
+    out.append('/-- `makerandCIJdegreesfixed` (%s:%d): every statement, one field per name and literal -/' % (relb, r.line))
+    out.append('def ir_makerandCIJdegreesfixed : Bct.CoreIR.Synth.DfIR :=\n  { recognised := %s, origins := %s,\n    %s }\n'
+               % ('true' if not r.problems else 'false', lean_origins(r), ',\n    '.join('%s := %s' % (k, f[k]) for k in DF_FIELDS)))
+    out.append('theorem makerandCIJdegreesfixed_ok : Bct.CoreIR.Synth.dfOk ir_makerandCIJdegreesfixed = true := by\n  first | decide | fail '
+               '"makerandCIJdegreesfixed_ok: the statements extracted from makerandCIJdegreesfixed (%s:%d-%d) %s"\n'
+               % (relb, a, b, 'were not all recognised by translate/cores.py' if r.problems else 'are not the expected program'))
+    out.append('theorem makerandCIJdegreesfixed_computes {n : Nat} (inv outv : Fin n → Nat) (ds : List Nat) :\n'
+               '    Bct.CoreIR.Synth.runDf ir_makerandCIJdegreesfixed inv outv ds = Bct.Synth.degreesFixed inv outv ds :=\n'
+               '  Bct.Cores.Synth.link_degreesfixed _ makerandCIJdegreesfixed_ok inv outv ds\n')
+    return {'lean': out, 'problems': list(r.problems), 'routines': {name: dict(getattr(r, 'counts', {}), line=r.line, recognised=not r.problems)}}
+
+
 def synth_extra():
     path = os.path.join(common.REPO, 'bct', 'algorithms', 'reference.py')
     fns, err = parse_functions(path)
@@ -5688,12 +6422,85 @@ def synth_extra():
     out.append('theorem makeringlatticeCIJ_computes {n : Nat} (k : Nat) (ds : List Nat) :\n'
                '    Bct.CoreIR.Synth.runRing (n := n) ir_makeringlatticeCIJ n k ds = Bct.Synth.ringLattice n k ds :=\n'
                '  Bct.Cores.Synth.link_makeringlattice _ makeringlatticeCIJ_ok k ds\n')
-    return {'imports': ['import BctVerif.Props.CoresSynth'], 'lean': out, 'problems': list(r.problems),
-            'routines': {name: dict(getattr(r, 'counts', {}), line=r.line, recognised=not r.problems)}}
+    d = synth_df()
+    return {'imports': ['import BctVerif.Props.CoresSynth'], 'lean': out + d['lean'], 'problems': list(r.problems) + d['problems'],
+            'routines': dict({name: dict(getattr(r, 'counts', {}), line=r.line, recognised=not r.problems)}, **d['routines'])}
 
 
 def family_synth():
     return family_pinned('synth', synth_extra)
+
+
+# ====================================================================== canonical local names
+#
+# The function-local names of every routine that is read, in the order of their first binding, at the reference revision
+# of /repo (`python cores.py --canon-locals` prints this table).  See `canonicalise_locals`.
+
+CANON_LOCALS = {
+    'bct/algorithms/centrality.py:betweenness_bin': ['n', 'I', 'd', 'NPd', 'NSPd', 'NSP', 'L', 'DP', 'diam', 'DPd1'],
+    'bct/algorithms/centrality.py:betweenness_wei': ['n', 'BC', 'u', 'D', 'NP', 'S', 'P', 'Q', 'q', 'G1', 'V', 'v', 'W', 'w', 'Duw', 'DP'],
+    'bct/algorithms/centrality.py:edge_betweenness_bin': ['n', 'BC', 'EBC', 'u', 'D', 'NP', 'P', 'Q', 'q', 'Gu', 'V', 'v', 'W', 'w', 'DP', 'DPvw'],
+    'bct/algorithms/centrality.py:edge_betweenness_wei': ['n', 'BC', 'EBC', 'u', 'D', 'NP', 'S', 'P', 'Q', 'q', 'G1', 'V', 'v', 'W', 'w', 'Duw',
+        'DP', 'DPvw'],
+    'bct/algorithms/centrality.py:kcoreness_centrality_bd': ['N', 'coreness', 'kn', 'k', 'CIJkcore', 'ss'],
+    'bct/algorithms/centrality.py:kcoreness_centrality_bu': ['N', 'CIJund', 'coreness', 'kn', 'k', 'CIJkcore', 'ss'],
+    'bct/algorithms/centrality.py:pagerank_centrality': ['N', 'norm_falff', 'deg', 'D1', 'B', 'b', 'r'],
+    'bct/algorithms/clustering.py:clustering_coef_bd': ['S', 'K', 'cyc3', 'CYC3', 'C'],
+    'bct/algorithms/clustering.py:clustering_coef_bu': ['n', 'C', 'u', 'V', 'k', 'S'],
+    'bct/algorithms/clustering.py:clustering_coef_wd': ['A', 'S', 'K', 'cyc3', 'CYC3', 'C'],
+    'bct/algorithms/clustering.py:clustering_coef_wu': ['K', 'ws', 'cyc3', 'C'],
+    'bct/algorithms/clustering.py:get_components': ['n', 'edge_map', 'u', 'v', 'union_sets', 'item', 'temp', 's', 'comps', 'i', 'comp_sizes'],
+    'bct/algorithms/clustering.py:number_of_components': ['_', 'csizes'],
+    'bct/algorithms/clustering.py:transitivity_bd': ['S', 'K', 'cyc3', 'CYC3'],
+    'bct/algorithms/clustering.py:transitivity_bu': ['tri3', 'tri2'],
+    'bct/algorithms/clustering.py:transitivity_wd': ['A', 'S', 'K', 'cyc3', 'CYC3'],
+    'bct/algorithms/clustering.py:transitivity_wu': ['K', 'ws', 'cyc3'],
+    'bct/algorithms/core.py:kcore_bd': ['peelorder', 'peellevel', 'iter', 'CIJkcore', 'id', 'od', 'deg', 'ff', 'kn'],
+    'bct/algorithms/core.py:kcore_bu': ['peelorder', 'peellevel', 'iter', 'CIJkcore', 'deg', 'ff', 'kn'],
+    'bct/algorithms/core.py:score_wu': ['CIJscore', 'str', 'ff', 'sn'],
+    'bct/algorithms/degree.py:degrees_dir': ['id', 'od', 'deg'],
+    'bct/algorithms/distance.py:breadth': ['n', 'white', 'gray', 'black', 'color', 'distance', 'branch', 'Q', 'u', 'ns', 'v'],
+    'bct/algorithms/distance.py:breadthdist': ['n', 'D', 'i', '_', 'R'],
+    'bct/algorithms/distance.py:charpath': ['Dv', 'lambda_', 'efficiency', 'ecc', 'radius', 'diameter'],
+    'bct/algorithms/distance.py:distance_bin': ['D', 'n', 'nPATH', 'L'],
+    'bct/algorithms/distance.py:distance_wei': ['n', 'D', 'B', 'u', 'S', 'G1', 'V', 'v', 'W', 'td', 'd', 'wi', 'ind', 'minD'],
+    'bct/algorithms/distance.py:distance_wei_floyd': ['SPL', 'n', 'hops', 'Pmat', 'k', 'i2k_k2j', 'path', 'i', 'j', 'I'],
+    'bct/algorithms/distance.py:mean_first_passage_time': ['P', 'n', 'D', 'V', 'aux', 'index', 'w', 'W', 'I', 'Z', 'mfpt'],
+    'bct/algorithms/distance.py:reachdist': ['reachdist2', 'id', 'od', 'id0', 'od0'],
+    'bct/algorithms/distance.py:retrieve_shortest_path': ['path_length', 'path', 'ind'],
+    'bct/algorithms/efficiency.py:efficiency_bin': ['distance_inv', 'D', 'n', 'nPATH', 'L', 'E', 'u', 'V', 'e', 'se', 'sa', 'numer', 'denom'],
+    'bct/algorithms/modularity.py:_safe_squeeze': ['out'],
+    'bct/algorithms/modularity.py:ls2ci': ['nr_indices', 'ci', 'z', 'i', 'x', 'j', 'y'],
+    'bct/algorithms/modularity.py:modularity_dir': ['n', 'ki', 'ko', 'm', 'b', 'B', 'init_mod', 'modules', 'recur', 'modmat', 'vals', 'vecs',
+        'rlvals', 'max_eigvec', 'mod_asgn', 'q', 'qmax', 'it', 'mod_asgn_iter', 'q_iter', 'imax', 'mod1', 'mod2', 'ci', 's'],
+    'bct/algorithms/modularity.py:modularity_louvain_dir': ['rng', 'n', 's', 'h', 'ci', 'q', 'n0', 'k_o', 'k_i', 'km_o', 'km_i', 'knm_o', 'knm_i',
+        'm', 'flag', 'it', 'u', 'ma', 'dq_o', 'dq_i', 'dq', 'max_dq', 'mb', '_', 'i', 'W1', 'j'],
+    'bct/algorithms/modularity.py:modularity_louvain_und': ['rng', 'n', 's', 'h', 'ci', 'q', 'n0', 'k', 'Km', 'Knm', 'm', 'flag', 'it', 'i', 'ma',
+        'dQ', 'max_dq', 'j', '_', 'W1', 'wp'],
+    'bct/algorithms/modularity.py:modularity_und': ['n', 'k', 'm', 'B', 'init_mod', 'modules', 'recur', 'modmat', 'vals', 'vecs', 'rlvals',
+        'max_eigvec', 'mod_asgn', 'q', 'qmax', 'it', 'mod_asgn_iter', 'q_iter', 'imax', 'mod1', 'mod2', 'ci', 's'],
+    'bct/algorithms/reference.py:makerandCIJdegreesfixed': ['rng', 'n', 'k', 'in_inv', 'out_inv', 'i_in', 'i_out', 'i', 'CIJ', 'edges', 'tried',
+        'switch', 't'],
+    'bct/algorithms/reference.py:makeringlatticeCIJ': ['rng', 'CIJ', 'CIJ1', 'kk', 'count', 'seq', 'seq2', 'dCIJ', 'dCIJ2', 'overby', 'i', 'j', 'rp',
+        'ii'],
+    'bct/algorithms/reference.py:null_model_dir_sign': ['rng', 'n', 'Ap', 'An', 'W_r', '_', 'Ap_r', 'An_r', 'W0', 's', 'Acur', 'A_rcur', 'Si', 'So',
+        'Wv', 'i', 'j', 'Lij', 'P', 'Oind', 'wsize', 'wei_period', 'lq', 'm', 'R', 'q', 'r', 'o', 'f', 'O', 'rpos_in', 'rpos_ou', 'rneg_in',
+        'rneg_ou'],
+    'bct/algorithms/reference.py:null_model_und_sign': ['rng', 'n', 'Ap', 'An', 'W_r', 'eff', 'Ap_r', 'An_r', 'W0', 's', 'Acur', 'A_rcur', 'S', 'Wv',
+        'i', 'j', 'Lij', 'P', 'Oind', 'wsize', 'wei_period', 'lq', 'm', 'R', 'q', 'r', 'o', 'f', 'O', 'rpos_in', 'rpos_ou', 'rneg_in', 'rneg_ou'],
+    'bct/algorithms/reference.py:randmio_dir_signed': ['rng', 'n', 'max_attempts', 'eff', 'it', 'att', 'a', 'b', 'c', 'd', 'r0_ab', 'r0_cd', 'r0_ad',
+        'r0_cb'],
+    'bct/algorithms/reference.py:randmio_und_signed': ['rng', 'n', 'max_attempts', 'eff', 'it', 'att', 'a', 'b', 'c', 'd', 'r0_ab', 'r0_cd', 'r0_ad',
+        'r0_cb'],
+    'bct/nbs.py:nbs_bct': ['rng', 'ttest2_stat_only', 't', 'n1', 'n2', 'vx', 'vy', 's', 'denom', 'ttest_paired_stat_only', 'd', 'n', 'df',
+        'sample_ss', 'unbiased_std', 'z', 'ix', 'jx', 'nx', 'iy', 'jy', 'ny', 'ixes', 'm', 'xmat', 'ymat', 'i', 't_stat', 'ind_t', 'adj', 'a', 'sz',
+        'ind_sz', 'nr_components', 'sz_links', 'nodes', 'max_sz', 'null', 'hit', 'u', 'indperm', 't_stat_perm', 'adj_perm', 'nr_components_perm',
+        'sz_links_perm', 'pvals'],
+    'bct/utils/miscellaneous_utilities.py:get_rng': ['rstate'],
+    'bct/utils/miscellaneous_utilities.py:pick_four_unique_nodes_quickly': ['rng', 'k', 'a', 'b', 'c', 'd'],
+    'bct/utils/other.py:invert': ['E'],
+    'bct/utils/other.py:threshold_proportional': ['n', 'ud', 'ind', 'I', 'en'],
+}
 
 
 # ====================================================================== entry points
@@ -5738,5 +6545,7 @@ def generate(lean_dir=None, families=None):
 if __name__ == '__main__':
     if len(sys.argv) > 2 and sys.argv[1] == '--print':
         sys.stdout.write(FAMILIES[sys.argv[2]]()['text'])
+    elif len(sys.argv) > 1 and sys.argv[1] == '--canon-locals':
+        sys.stdout.write(canon_locals_text())
     else:
         print(json.dumps(generate(sys.argv[1] if len(sys.argv) > 1 else None), indent=1))
